@@ -23,7 +23,7 @@ UNIVERSE = ['a', 'b', 'c', 'd', 'e']
 
 
 def real_function(qual):
-    modname, path = qual.split(':')
+    modname, path = qual.split('#')[0].split(':')
     mod = importlib.import_module(modname)
     obj = mod
     parts = path.split('.')
@@ -606,9 +606,9 @@ def it_ok(c, env, it):
 def heap_namespace(args):
     """run-time meaning of the heap-mode vocabulary (DESIGN 11.7): a sub-graph identity is the SCFG object of a region;
     all_subs() are the sub-graphs nested under the arguments, graph_at_entry(s) their block dictionaries before the call"""
-    subs, depth = [], {}
+    subs, depth, root = [], {}, {}
 
-    def walk(blk, d):
+    def walk(blk, d, rt):
         if type(blk).__name__ == 'RegionBlock' and blk.subregion is not None:
             sg = blk.subregion
             if any(sg is x for x in subs):
@@ -616,16 +616,23 @@ def heap_namespace(args):
                 return
             subs.append(sg)
             depth[id(sg)] = d
+            root[id(sg)] = rt if rt is not None else id(sg)
             for b in list(sg.graph.values()):
-                walk(b, d + 1)
+                walk(b, d + 1, root[id(sg)])
     for v in args.values():
-        walk(v, 1)
+        if type(v).__name__ == 'SCFG':
+            for b in list(v.graph.values()):
+                walk(b, 1, None)
+        else:
+            walk(v, 1, None)
     at_entry = {id(sg): dict(sg.graph) for sg in subs}
     return {
         'all_subs': lambda: list(subs),
         'graph_at_entry': lambda sg: at_entry[id(sg)],
         'graph_now': lambda sg: sg.graph,
-        'sub_depth': lambda sg: depth[id(sg)],
+        'same_graph': lambda sg: dict(sg.graph) == at_entry[id(sg)],
+        'sub_depth': lambda sg: depth.get(id(sg), 0),
+        'chain_root': lambda sg: root.get(id(sg), id(sg)),
         'nesting_wf': lambda: not depth.get('$shared'),
         'heap_unchanged': lambda: all(dict(sg.graph) == at_entry[id(sg)] for sg in subs),
         'fact': lambda *a: True,
